@@ -46,6 +46,13 @@ pub fn arr12(c: &Cur, a: usize) -> (r: [u8; 12])
     requires a + 12 <= c.rem().len()
     ensures r@ == c.rem().subrange(a as int, a + 12)
 { unimplemented!() }
+// the same expression with any other bounds / array length: `bytes[a..b]` panics unless a <= b <= len, and
+// `<&[u8; N]>::try_from(slice).unwrap()` panics unless the slice has exactly N bytes
+#[verifier::external_body]
+pub fn arr_from_to<const N: usize>(c: &Cur, a: usize, b: usize) -> (r: [u8; N])
+    requires a <= b <= c.rem().len(), b - a == N
+    ensures r@ == c.rem().subrange(a as int, b as int)
+{ unimplemented!() }
 fn max_u32(a: u32, b: u32) -> (r: u32) ensures r == if a >= b { a } else { b } { if a >= b { a } else { b } }
 fn min_u32(a: u32, b: u32) -> (r: u32) ensures r == if a <= b { a } else { b } { if a <= b { a } else { b } }
 
@@ -332,8 +339,10 @@ pub proof fn bw_roundtrip(c: u32, items: Seq<Value>, len: u32)
 //@presub /BBIReadError::InvalidFile\(format!\(\s*"[^"]*",\s*section_type\s*\)\)/ => BBIReadError::invalid_file()
 //@sub /Option<std::vec::IntoIter<Value>>/ => Option<Vec<Value>>
 //@sub /Ok\(Some\(values\.into_iter\(\)\)\)/ => Ok(Some(values))
-//@sub /let block_item_data: &\[u8; 12\] = bytes\[(\w+)\.\.\w+ \+ 12\]\.try_into\(\)\.unwrap\(\);/ => let block_item_data: [u8; 12] = arr12(&bytes, \1);
-//@sub /assert\(bytes\.len\(\) >= / => assert(bytes.rem().len() >=
+//@sub /let block_item_data: &\[u8; (\d+)\] = bytes\[(\w+)\.\.(\w+) (\+|-) (\d+)\]\.try_into\(\)\.unwrap\(\);/ => let block_item_data: [u8; \1] = ARR{\1}{\2}{\3 \4 \5}(&bytes);
+//@sub /ARR\{12\}\{(\w+)\}\{\1 \+ 12\}\(&bytes\)/ => arr12(&bytes, \1) min=0
+//@sub /ARR\{(\d+)\}\{(\w+)\}\{([^}]*)\}\(&bytes\)/ => arr_from_to::<\1>(&bytes, \2, \3) min=0
+//@sub /assert\(bytes\.len\(\) (==|!=|>=|<=|>|<) / => assert(bytes.rem().len() \1
 //@sub /(value\.\w+)\.(max|min)\((\w+)\)/ => \2_u32(\1, \3) min=0
 //@sub /for _ in 0\.\.item_count/ => for k in 0..item_count min=2
 //@ret r
@@ -357,7 +366,7 @@ pub proof fn bw_roundtrip(c: u32, items: Seq<Value>, len: u32)
         (r matches Ok(Some(_))) ==> *final(known_offset) == block.offset + block.size,
         [[L: known_offset_untouched_otherwise]]
         !(r matches Ok(Some(_))) ==> *final(known_offset) == *old(known_offset),
-//@at /let mut bytes_header = bytes\.split_to\(24\);/ before
+//@at /let mut bytes_header = bytes\.split_to\(\d+\);/ before
     let ghost big = is_big(endianness);
     let ghost d = data@;
     let ghost raw = raw_items(big, d);
